@@ -434,10 +434,14 @@ def r7_failed_validation_leaves_no_mark(chk: Check):
     # the only reason to skip a configuration is that it carries the mark: no other early exit (e.g. "an equal configuration was seen":
     # configuration equality ignores values that are not set)
     g0 = CFG(f.node)
+    arg_loops = [n for n in g0.live if n.kind == "for" and "arguments" in src(n.ast.iter)]
+    examined = [b for b in g0.live if b.kind == "branch" and b.extra["test"] in arg_loops and b.extra["polarity"] == "done"]
     for n in g0.live:
         if n.kind == "stmt" and isinstance(n.ast, ast.Return):
             gs = [(src(t.ast), pol) for t, pol in g0.guards(n) if t.kind == "test"]
             extra = [x for x in gs if x != ("self._validated", True)]
+            if extra and examined and g0.must_pass(g0.entry, n, examined):
+                continue  # a return after every argument was examined is the end of the function
             chk.require(not extra, chk.fkey(f, "skipped only when marked"), f"validate() returns early under {extra}: a configuration that was never examined is treated as valid", chk.loc(f.module, n.ast))
     marks = [x for x in body_walk(f.node) if isinstance(x, ast.Assign) and src(x.targets[0]).endswith("._validated") and isinstance(x.value, ast.Constant) and x.value.value is True]
     if not marks:
